@@ -267,6 +267,9 @@ def gen_net_acts(R, nseg, cfg, protect_first=False):
             if pct and R.chance(pct, 1000):
                 if kind == "delay":
                     acts.append([i, "delay", R.range(1, cfg.get("_D", 4))])
+                elif kind == "early":
+                    if i >= 2:
+                        acts.append([i, "early", R.range(2, min(i, cfg.get("_D", 4)))])
                 elif kind == "lost_before":
                     acts.append([i, "lost_before"])
                 elif kind == "dup":
